@@ -44,6 +44,7 @@ func init() {
 	register("C15", "The changelog faithfully records tuple history", func(e *Engine, r *Reporter) {
 		ruleAppendOnly(e, r, "changelog", "changelog-append-only", "the changelog table is only ever SELECTed or INSERTed, and INSERTs run on the write transaction", 6, true)
 		ruleBatchStride(e, r)
+		ruleMemoryHorizonCut(e, r)
 	})
 	register("C17", "Models are validated, immutable and resolved to the latest", func(e *Engine, r *Reporter) {
 		ruleAppendOnly(e, r, "authorization_model", "model-immutable-sql", "no UPDATE/DELETE statement on authorization_model exists in any SQL backend", 8, false)
@@ -71,6 +72,8 @@ func init() {
 		ruleFailClosed(e, r)
 		ruleSkipAuthzOwner(e, r)
 		ruleListStoresFilter(e, r)
+		ruleEveryTupleContributesModule(e, r)
+		ruleListStoresIDsPredicate(e, r)
 		r.Rule("apimethod-total", "Authorizer.getRelation handles every apimethod.APIMethod constant; unknown methods are an error", 1)
 		for _, s := range e.valueSwitches() {
 			if s.Subject == "APIMethod" {
@@ -184,9 +187,10 @@ func init() {
 func init() {
 	register("C25", "Condition evaluation follows the declared CEL semantics", func(e *Engine, r *Reporter) {
 		ruleConditionEval(e, r)
+		ruleConditionFilterInstalled(e, r)
 	})
 	describe("C25", meta{
-		Decides:    "(1) EvaluateTupleCondition is fail-closed: every error return carries false, constant true only for a tuple without condition, the computed decision is ConditionMet behind Evaluate()==nil and an empty MissingParameters; (2) merge order: request context first, tuple context appended, Evaluate clones contextMaps[0] and copies contextMaps[1:] over it (later wins, so stored values take precedence); (3) every decode/convert/compile/evaluate error in CastContextToTypedParameters and Evaluate leads to a non-nil error return.",
+		Decides:    "(1) EvaluateTupleCondition is fail-closed: every error return carries false, constant true only for a tuple without condition, the computed decision is ConditionMet behind Evaluate()==nil and an empty MissingParameters; (2) merge order: request context first, tuple context appended, Evaluate clones contextMaps[0] and copies contextMaps[1:] over it (later wins, so stored values take precedence); (3) every decode/convert/compile/evaluate error in CastContextToTypedParameters and Evaluate leads to a non-nil error return; (4) the weighted-graph engine skips the condition filter only on paths proving the edge unconditioned (len<=1 and conditions[0]==NoCond).",
 		NotDecided: "CEL's own semantics and the converters' value mapping per parameter type.",
 	})
 	techniques["C25"] = "return-site analysis + cut reachability on SSA; argument-order check of the context merge"
@@ -275,9 +279,10 @@ func init() {
 	register("C28", "Continuation tokens round-trip and resist tampering", func(e *Engine, r *Reporter) {
 		ruleTokens(e, r)
 		ruleTokenHandling(e, r)
+		ruleTokenCodecSymmetric(e, r)
 	})
 	describe("C28", meta{
-		Decides:    "TokenEncoder.Decode = base64 decode then Decrypt with both errors returned and Decrypt's verdict as result; GCMEncrypter.Decrypt returns plaintext only from AEAD.Open (empty input passthrough aside), Encrypt seals; each paging handler hands the server's encoder to its command, and each command queries the backend only behind a successful Decode (C14 token rule).",
+		Decides:    "TokenEncoder.Decode = base64 decode then Decrypt with both errors returned and Decrypt's verdict as result; GCMEncrypter.Decrypt returns plaintext only from AEAD.Open (empty input passthrough aside), Encrypt seals; each paging handler hands the server's encoder to its command, and each command queries the backend only behind a successful Decode (C14 token rule); serializer codec symmetry (json.Marshal of T vs json.Unmarshal into T).",
 		NotDecided: "round-trip equality of positions over all values; AES-GCM itself (trusted).",
 	})
 	techniques["C28"] = "return-value origin analysis of the decode/decrypt chain; who-passes-what for the encoder option"
@@ -341,10 +346,11 @@ func init() {
 	techniques["C23"] = "GUARDED_BY must-lockset dataflow on SSA, Stop-delegation reachability, append-order reachability"
 	register("C22", "Internal concurrent queues behave like FIFO channels", func(e *Engine, r *Reporter) {
 		ruleLockset(e, r, func(p string) bool { return strings.HasPrefix(p, "internal/containers") }, "queue-state-guarded", 10)
+		ruleAccumulatorClosedSticky(e, r)
 	})
 	describe("C22", meta{
-		Decides:    "data-race freedom of the mpmc queue's resizable state: data, capacity and extended are written only with mu held exclusively and read only with mu held (shared or exclusive), across the unlock/relock sequences of Send/Recv; helpers (mask, extend) are called only with the lock held.",
-		NotDecided: "linearizability, lost wake-ups, FIFO order, the lock-free accumulator's CAS protocol — schedule properties.",
+		Decides:    "data-race freedom of the mpmc queue's resizable state: data, capacity and extended are written only with mu held exclusively and read only with mu held (shared or exclusive), across the unlock/relock sequences of Send/Recv; helpers (mask, extend) are called only with the lock held; the accumulator's closed state (head == nil) is sticky: head is written only by Swap/Store(nil) or by a CompareAndSwap whose expected value is proven non-nil.",
+		NotDecided: "linearizability, lost wake-ups, FIFO order — schedule properties.",
 	})
 	techniques["C22"] = "flow-sensitive must-lockset over SSA for the documented lock discipline"
 	describe("C20", meta{
@@ -426,6 +432,7 @@ func init() {
 		ruleV2ContextualPairing(e, r)
 		ruleMergeComparator(e, r)
 		ruleCloneComplete(e, r, []string{"internal/check"})
+		ruleConditionFilterInstalled(e, r)
 	})
 	describe("C03", meta{
 		Decides:    "(1) every dispatch of the weighted-graph engine over edge/node kinds is total or fails closed (ErrPanicRequest is non-terminal, so the server falls back); (2) in Server.Check a non-terminal v2 error can only be answered through the default engine's Execute, the terminal set is the reviewed one, both reporting sites consult the detector and the detector knows every Err…InvalidRequest sentinel; (3) engine-internal invariants found defective or fragile while reading: stateful de-duplication filter last (F5), negative results cached only when visited-independent (F4), raw visited map only behind usesVisited, contextual pairing of every read, the stored/contextual merge comparator, complete request clones.",
@@ -437,6 +444,7 @@ func init() {
 		ruleTuningNotInDecisions(e, r)
 		ruleSharedFillContext(e, r)
 		ruleStatefulFilterLast(e, r)
+		ruleConditionFilterInstalled(e, r)
 	})
 	describe("C02", meta{
 		Decides:    "(1) every reference to a fast-path handler of the default engine is control-dependent on the typesystem predicate that makes the strategy valid (or on the strategy having been offered under it); (2) concurrency/breadth limits flow only into pool limits, capacities and options — never into a comparison or arithmetic that could cut results; (3) state shared between concurrent requests is filled under context.Background() (shared iterator), and the recursive strategy's filter chain keeps the de-duplication filter last (so it evaluates conditions like the default strategy).",
